@@ -55,13 +55,16 @@ CHECKS = {
         "Theorems in lean/Dreye/Props/C16.lean prove over the reals, for every dimension >= 2 and every point (origin, axis "
         "points, negative coordinates included), that the modelled cartesian->n-sphere conversion returns the Euclidean norm "
         "as radius, polar angles in [0,pi] and the azimuth in [0,2pi], and that converting back recovers the point exactly; "
-        "lean/Dreye/Props/C16Bary.lean (when present) adds the barycentric half. Every run executes the same model text at "
+        "lean/Dreye/Props/C16Bary.lean proves the barycentric half (closed form of the vertex matrix, unit edges, affinity, "
+        "injectivity on the plane, L1 sums, scale invariance of the chromatic reduction) and C16Round.lean the round trips: the "
+        "Gauss-Jordan inverse is two-sided and complete, [T|1] is always inverted, reverse-then-forward and forward-then-reverse "
+        "are identities in every dimension, centred or not, with or without L1. Every run executes the same model text at "
         "IEEE doubles and compares dreye's transformer matrix, both barycentric directions (centred, L1 none/scalar/per-row), "
         "chromatic reduction, both spherical directions with it, and evaluates the property predicates (unit edges, L1 sums, "
         "scale invariance, ranges, round trips) on dreye's output.",
         "Trusted: Lean kernel; libm (the theorems are about real numbers; the Float run of the model is trusted to ~1e-12 and "
-        "arccos near +-1 is compared at 3e-8); np.linalg.inv is modelled by Gauss-Jordan and compared, not verified; the "
-        "barycentric theorems are being added incrementally (see evidence.theorems for what is proved in this run).",
+        "arccos near +-1 is compared at 3e-8); np.linalg.inv is modelled by Gauss-Jordan (proved a two-sided inverse) and "
+        "compared with numpy per run.",
         "5/C16"),
     "C05": (
         "Lean 4 proof (arithmetic induction on the batch plan; separability over Finset sums) + exhaustive (n, batch size) grid against the hooked code",
@@ -75,7 +78,8 @@ CHECKS = {
         "permuted/duplicated/dropped/appended rows.",
         "Trusted: Lean kernel; cvxpy/solvers are engines (results compared between batch sizes at solver accuracy: 2e-4 "
         "gaussian/variance, 1e-2 poisson, 1e-4 excitation units); that the stacked cvxpy objective is the block sum is "
-        "argued in DESIGN.md and checked by the result comparison, not proved; hooks record the scatter.",
+        "proved on lists in Props/ExtrasA.lean (stacked_objective_sum) for the model's stacking, and checked against cvxpy by the "
+        "result comparison; hooks record the scatter.",
         "5/C05"),
     "C04": (
         "Lean 4 proof (problem construction = documented objective; exact KKT => global optimum, any size, any ordered field) + per-answer exact certificate",
@@ -187,20 +191,25 @@ CHECKS = {
         "cache) for histories of any length; in such a state every closed-form query is answered exactly as a stateless "
         "reference answers it from the registered values; hence two histories ending in the same registered values give "
         "identical answers; each call replaces its own value(s) and nothing else (register_bounds keeps the other bound, "
-        "register_system resets the bounds, the adaptation calls read the current baseline). Queries carry no state in the model. "
+        "register_system resets the bounds, the adaptation calls read the current baseline, register_targets(B, W) replaces the "
+        "targets AND the fitting weights - W, or the constructor's w when W is not given, never weights of an earlier call). "
+        "Queries carry no state in the model. "
         "Every run drives a real ReceptorEstimator through all histories up to a bounded length and random longer ones with "
-        "interleaved query bundles, compares A, K, baseline, bounds, system/relative captures and in_system after EVERY step with "
+        "interleaved query bundles, compares A, K, baseline, bounds, system/relative captures, in_system, registered targets and "
+        "fitting weights after EVERY step with "
         "the Lean state machine, compares engine-backed queries with a fresh twin at the end, and hashes caller arrays.",
         "Trusted: Lean kernel; engine-backed queries (gamut test, ranges, fits, sampling) are not in the Lean model - they are "
         "compared with a fresh twin estimator (metamorphic); add=True with a matrix K is not modelled (the harness avoids it); "
-        "fit() with internal targets is exercised in C04, not here; aliasing is a runtime effect checked by hashing.",
+        "fit() of the registered targets is compared with the twin; aliasing is a runtime effect checked by hashing and by the "
+        "frame condition of every routed call.",
         "5/C14"),
     "C07": (
         "Lean 4 proof (convexity/tangent bound of the Poisson objective over the reals; excitation identity and level infeasibility from LP multipliers) + exact per-answer certificates",
         "Theorems in lean/Dreye/Props/C07.lean prove: the code's quasi-convex term |b-p|/((1+b)(1+p)) equals |e(b)-e(p)| for "
         "e(q)=q/(1+q); 'excitation error <= t' is the pair of linear inequalities the model builds; accepted multipliers with a "
         "positive value show that NO in-bound intensity vector reaches level t; over the reals the Poisson objective lies above "
-        "its tangent, hence obj(x) <= obj(y) + (g.x - min_box g.z) for EVERY in-bound y with the logarithm-free gradient g, and "
+        "its tangent, hence obj(x) <= obj(y) + (g.x - min_box g.z) for EVERY in-bound y with the logarithm-free gradient g (for "
+        "sources without upper bound the gap is evaluated at a nearby point and carried back: poisson_shifted_gap_bound), and "
         "the objective is minimal at prediction = target (Gibbs). Every run evaluates, exactly in Q at dreye's answers, the Poisson "
         "gap and the documented excitation objective, certifies level (objective - 2e-3) unreachable with LP multipliers through "
         "the verified checker, and checks bounds, prediction = model capture, and that gaussian / Poisson / excitation all "
@@ -248,8 +257,9 @@ CHECKS = {
         "capture, (1,1) for in-gamut sets, and the optimality certificate (multipliers from HiGHS on the same rows) through the "
         "verified checker; instances whose constraint set is empty (dreye raises) are recognised by an independent LP.",
         "Trusted: Lean kernel; cvxpy/CLARABEL is the engine (the default ECOS is not installed here - the solver is passed "
-        "through the documented keyword); the certificate ranges over feasible pairs with both scales <= 1e4 (for 'unity' larger "
-        "scales are trivially worse; for 'max' this is a stated restriction); emptiness of the constraint set is decided by an "
+        "through the documented keyword); the certificate ranges over ALL feasible pairs (scales unbounded above; the untrusted "
+        "float multipliers are repaired to exact dual feasibility before the verified checker sees them; a certificate restricted "
+        "to scales <= 1e4 is only a counted fallback); emptiness of the constraint set is decided by an "
         "untrusted LP (it only suppresses a 'raises' report).",
         "5/C10"),
     "C11": (
